@@ -8,6 +8,15 @@ CHECKS = {
  "C02": dict(cat="exploration", technique="reference-model monitor over API histories (small-scope exhaustive + seeded random), differential TopicMatch",
    text="Every lookup kind of subscription.Store (mem and redis wrapper) is compared with a reference table + MQTT 4.7 matcher after every operation of exhaustively enumerated short histories and seeded random long histories; TopicMatch is compared on all valid pairs of a topic universe. Decides the executions produced, not all histories.",
    note="trusted: refmodel.Match/SubTable (written from MQTT 4.7), fakeredis for the redis wrapper; single-threaded use (concurrency is C15)", ref="§5 C02"),
+ "C01": dict(cat="exploration", technique="wire-level trace monitor vs reference delivery model; concurrent publishers; sentinel barriers",
+   text="Generated multi-client scenarios are executed against a real in-process broker over TCP with an independent MQTT codec; every PUBLISH received by every subscriber (copies, QoS, RETAIN, subscription ids, properties, order per publisher, DUP, packet id) and every ack to every publisher is compared with a reference model of MQTT matching and of the two delivery modes. Holds on the executions produced (hundreds to thousands of scenarios, concurrent publishers, injected hook delays), not for all schedules.",
+   note="trusted: mqttx codec, refmodel.Match, FIFO of TCP/queue for the sentinel barrier; drop conditions excluded by configuration", ref="§5 C01"),
+ "C07": dict(cat="exploration", technique="reference-model monitor over store histories (exhaustive small scope + random) and wire-level replay monitor",
+   text="(a) retained.Store compared with a map model after every operation of exhaustively enumerated short histories and random long ones (all topic/filter lookups, Iterate, copy semantics); (b) wire scenarios check what a SUBSCRIBE replays (Retain Handling, RAP, QoS downgrade, shared, v3/v5, re-subscription).",
+   note="trusted: refmodel.Match, mqttx; sentinel barrier for completeness of replay", ref="§5 C07"),
+ "C10": dict(cat="exploration", technique="validating reference model over seeded API histories with conservation ledger and final drain",
+   text="Seeded histories of Add/Read/ReadInflight/Remove/Replace/Init/Close on the memory and redis queue are validated step by step: bound, FIFO, id assignment, expired/oversize never returned, replay after Init, documented drop priority (any member of the demanded class accepted), counters = true contents, every message in exactly one ledger state, blocked Read released by Close/Add.",
+   note="trusted: the model (written from the statement and the interface comment), fakeredis; expiry via +-1h offsets, no wall-clock verdicts", ref="§5 C10"),
 }
 
 def main():
